@@ -132,10 +132,53 @@ def check(F, rep, tier):
         exi = mir.inlined(F, ex, depth=2, ok=lambda F_, caller, cp, g: g is not None and g.kind != "closure" and cp.startswith("crate::cli::app::"))
         names = [mir.callee(t) or "" for bi, t in exi.calls()]
         lossy = [c for c in names if any(x in c for x in ("from_utf8_lossy", "from_utf8_unchecked", "from_utf16_lossy"))]
-        strict = [c for c in names if c.endswith("Read::read_to_string") or c.endswith("io::read_to_string") or c.endswith("String::from_utf8") or c.endswith("str::from_utf8") or c.endswith("::read_line")]
+        strict = [c for c in names if c.rsplit("::", 1)[-1] == "read_to_string" or c.endswith("io::read_to_string") or c.endswith("String::from_utf8") or c.endswith("str::from_utf8") or c.endswith("::read_line")]
         if lossy: rep.bad("R12.6", "stdin-lossy-decoding", "stdin is decoded with %s: a document that is not valid UTF-8 is silently altered and then parsed instead of being refused" % [c.rsplit("::", 1)[-1] for c in lossy], ex.where())
         elif strict: rep.ok("R12.6", "stdin is read with a UTF-8 validating read (%s)" % sorted({c.rsplit("::", 1)[-1] for c in strict}), nontrivial_key="stdinutf8")
         else: rep.undecided("R12.6", "stdin-decoding-shape", "how stdin is decoded is not recognised (%s)" % [c.rsplit("::", 1)[-1] for c in names][:6], ex.where())
+    # ---- R12.8 no hand-written field deserialiser changes what was written -------------------------------------------------------------
+    # (the document types derive Serialize and Deserialize; a `deserialize_with` helper that filters or rewrites a value makes the
+    # object read back differ from the object emitted)
+    ALTER = ("::filter", "::unwrap_or", "::unwrap_or_default", "::unwrap_or_else", "::trim", "::trim_end", "::trim_start", "::to_lowercase", "::to_uppercase", "::replace", "::or", "::or_else",
+             "::min", "::max", "::truncate", "::take", "::parse", "::and_then", "::then_some", "::then", "::clamp", "::saturating_sub", "::saturating_add")
+    nhelp = 0
+    for p_, g_ in F.fns.items():
+        if "::tests" in p_ or "test_utils" in p_ or "::_::" in p_ or g_.kind == "closure": continue
+        if not (p_.startswith("crate::version::zerv::") or p_.startswith("<crate::version::zerv::")): continue
+        cs = [mir.callee(t) or "" for h_ in [g_] + F.children(g_.path) for bi, t in h_.calls()]
+        if not any("Deserialize" in c and c.endswith("::deserialize") for c in cs): continue
+        if g_.d.get("impl_trait"): continue            # a whole hand-written Deserialize impl is the business of R12.3/R12.4
+        nhelp += 1
+        alt = sorted({c.rsplit("::", 1)[-1] for c in cs if any(c.endswith(x) for x in ALTER)})
+        if alt: rep.bad("R12.8", "field-deserialiser-alters:" + p_.rsplit("::", 1)[-1], "the field deserialiser %s passes the value it read through %s: some written values (e.g. Some(\"\")) are read back as something else, so an emitted object no longer re-reads to itself" % (p_.rsplit("::", 1)[-1], alt), g_.where())
+        else: rep.undecided("R12.8", "field-deserialiser:" + p_.rsplit("::", 1)[-1], "a hand-written field deserialiser whose effect on the value is not evaluated", g_.where())
+    if not nhelp: rep.ok("R12.8", "the Zerv document types are read by derived field-by-field deserialisation only (no deserialize_with helper)", nontrivial_key="nohelper")
+    # ---- R12.7 what the writer can nest, the reader must be able to read ------------------------------------------------------------
+    # vars.custom is a serde_json::Value of any depth; the emitter (ron::ser::to_string_pretty) writes every level, the readers use
+    # ron::from_str, i.e. ron's default recursion limit (128, two levels per JSON nesting step in RON's encoding of a Value)
+    zv = F.adts.get("crate::version::zerv::vars::ZervVars")
+    custom_ty = None
+    if zv:
+        for v in zv["variants"]:
+            for fl in v["fields"]:
+                if fl["name"] == "custom": custom_ty = fl["ty"]
+    writers = [(p_, bi) for p_, g_ in F.fns.items() if "::tests" not in p_ for bi, t in g_.calls() if (mir.callee(t) or "") in ("ron::ser::to_string_pretty", "ron::to_string", "ron::ser::to_string") and "zerv::core::Zerv" in str((t[1].get("targs") or [""])[0])]
+    readers = [(g_, bi, mir.callee(t)) for p_, g_ in F.fns.items() if "::tests" not in p_ and "test_utils" not in p_ for bi, t in g_.calls()
+               if (mir.callee(t) or "") in ("ron::from_str", "ron::de::from_str", "ron::Options::from_str") and "zerv::core::Zerv" in str((t[1].get("targs") or [""])[0])]
+    if custom_ty is None or not writers or not readers:
+        rep.undecided("R12.7", "depth-shape", "custom field type %s, %d writer(s), %d reader(s) of Zerv documents found" % (custom_ty, len(writers), len(readers)), None)
+    else:
+        unbounded = "serde_json::Value" in custom_ty or "tera::Value" in custom_ty
+        depth_checked = any((mir.callee(t) or "").startswith("crate::") and "depth" in (mir.callee(t) or "").rsplit("::", 1)[-1].lower() for p_, g_ in F.fns.items() if "::tests" not in p_ for bi, t in g_.calls())
+        for g_, bi, c in readers:
+            site = "%s bb%d line %s" % (g_.where(), bi, g_.blocks[bi]["line"])
+            key = g_.path.replace("crate::", "").rsplit("::", 1)[-1]
+            if c.endswith("Options::from_str"): rep.undecided("R12.7", "reader-options:" + key, "the reader uses explicit ron::Options: its recursion limit is not evaluated", site)
+            elif unbounded and not depth_checked and "format_handler" not in g_.path:
+                rep.ok("R12.7", "%s re-reads a document zerv produced in-process from an object that was itself read or built from flags (same limit as the stdin reader)" % key, sample=site, nontrivial_key="depthint" + key)
+            elif unbounded and not depth_checked:
+                rep.bad("R12.7", "reader-depth-limit:" + key, "%s reads Zerv documents with ron::from_str (default recursion limit 128) while vars.custom (%s) is emitted at any nesting depth: an emitted object whose custom JSON is nested 64 levels or more is refused when read back" % (key, custom_ty), site)
+            else: rep.ok("R12.7", "%s: nesting depth of what is emitted is bounded" % key, sample=site, nontrivial_key="depth" + key)
     return core.finish(rep, explanation=EXPL, assumptions=ASSUME, trusted=TRUST)
 
 def handwritten_pair(F, rep, ty, ser, de):
